@@ -445,7 +445,7 @@ pub fn run(prop: &str, tier: &str, seed: u64) -> Report {
         total.inconclusive.push("harness RFC 3339 parser self-test failed".into());
         return total;
     }
-    let (k, maxlen) = if prop == "C13" { (9usize, if thorough { 6 } else { 4 }) } else { (12usize, if thorough { 5 } else { 4 }) };
+    let (k, maxlen) = if prop == "C13" { (9usize, if thorough { 7 } else { 4 }) } else { (12usize, if thorough { 6 } else { 4 }) };
     // exhaustive words on v4.local
     let mut counts = Vec::new();
     let mut totalw = 0usize;
@@ -471,12 +471,12 @@ pub fn run(prop: &str, tier: &str, seed: u64) -> Report {
     // random longer words on all protocols
     let nrand = |p: P| -> usize {
         match (p, thorough) {
-            (P::V1P, false) => 60,
-            (P::V3P, false) => 120,
-            (_, false) => 400,
-            (P::V1P, true) => 800,
-            (P::V3P, true) => 1500,
-            (_, true) => 6000,
+            (P::V1P, false) => 150,
+            (P::V3P, false) => 300,
+            (_, false) => 3000,
+            (P::V1P, true) => 8000,
+            (P::V3P, true) => 15_000,
+            (_, true) => 200_000,
         }
     };
     let maxw = if prop == "C13" { 12 } else { 40 };
@@ -532,5 +532,5 @@ pub fn replay(prop: &str, case: &Value) -> Report {
     r
 }
 
-pub const RULE_C13: &str = "call words over {set exp, set nbf, set iat, set iss, set custom a, acknowledge, set_footer, set_implicit_assertion, build} (a final build is appended to words that do not end in one): ALL words up to length 4 (thorough 6) on v4.local, seeded random words up to length 12 on all 8 protocols. Every token of every successful build (first and later builds of one builder) is read back and compared with a state machine written from the property: exp present iff not acknowledged; default exp == creation + 3600.000000000 s, default iat == default nbf within the clock bracket taken around the run (5 ms slack); caller-supplied values present; no other member. distinct_nontrivial = distinct (protocol, word, build number) that built and conformed";
-pub const RULE_C17: &str = "call words over {set_claim(k) for k in exp,nbf,iat,iss,sub,aud,jti,a,b; acknowledge; set_footer; build} (a final build appended): ALL words up to length 4 (thorough 5) on v4.local, seeded random words up to length 40 on all 8 protocols; every occurrence of a setter uses a different value. Model: once any key has been supplied twice every build must fail with the duplicate-claim error naming one of the duplicated keys; otherwise every build must succeed and carry the caller's values; exp supplied after the acknowledgement may be refused as duplicate or ignored. distinct_nontrivial = distinct (protocol, word, build number, outcome class)";
+pub const RULE_C13: &str = "call words over {set exp, set nbf, set iat, set iss, set custom a, acknowledge, set_footer, set_implicit_assertion, build} (a final build is appended to words that do not end in one): ALL words up to length 4 (thorough 7) on v4.local, seeded random words up to length 12 on all 8 protocols. Every token of every successful build (first and later builds of one builder) is read back and compared with a state machine written from the property: exp present iff not acknowledged; default exp == creation + 3600.000000000 s, default iat == default nbf within the clock bracket taken around the run (5 ms slack); caller-supplied values present; no other member. distinct_nontrivial = distinct (protocol, word, build number) that built and conformed";
+pub const RULE_C17: &str = "call words over {set_claim(k) for k in exp,nbf,iat,iss,sub,aud,jti,a,b; acknowledge; set_footer; build} (a final build appended): ALL words up to length 4 (thorough 6) on v4.local, seeded random words up to length 40 on all 8 protocols; every occurrence of a setter uses a different value. Model: once any key has been supplied twice every build must fail with the duplicate-claim error naming one of the duplicated keys; otherwise every build must succeed and carry the caller's values; exp supplied after the acknowledgement may be refused as duplicate or ignored. distinct_nontrivial = distinct (protocol, word, build number, outcome class)";
